@@ -549,6 +549,28 @@ def flow_rule(ctx, fv, arms=None):
             ctx.fail("C15.F", "%s:extra:%s" % (arm, g[0].split("::")[-1]),
                      "the `%s` arm additionally calls `%s(%s)`: the options would do more than they say"
                      % (arm, g[0], ", ".join(g[1])), line_of(g[3]))
+    # order: every option is applied (set_*) before the computation it configures starts (any other method of the
+    # same computer: build_table, compute_coverages, vectorise, count, merge ..)
+    order = {id(n): i for i, n in enumerate(fv.nodes)}
+    for arm, got in actual.items():
+        if arm is None or (arms is not None and arm not in arms):
+            continue
+        by_type = {}
+        for callee, sargs, gl, node in got:
+            parts = callee.split("::")
+            if len(parts) < 2 or node.get("k") != "mcall":
+                continue
+            by_type.setdefault("::".join(parts[:-1]), []).append((parts[-1], node))
+        for ty, calls in by_type.items():
+            setters = [(nm, nd) for nm, nd in calls if nm.startswith("set_")]
+            actions = [(nm, nd) for nm, nd in calls if not nm.startswith("set_") and nm != "new"]
+            late = [(nm, nd) for nm, nd in setters if actions and order[id(nd)] > min(order[id(a[1])] for a in actions)]
+            ctx.check("C15.F", "%s:%s:setters_before_run" % (arm, ty.split("::")[-1]), not late,
+                      "%d option setter(s) applied before %s" % (len(setters), "/".join(sorted(set(a[0] for a in actions))) or "the run"),
+                      "`%s` is called after `%s` has already run: the option it carries is ignored by that step (the CLI "
+                      "result differs from the library result with the same settings)"
+                      % (late[0][0] if late else "", sorted(actions, key=lambda a: order[id(a[1])])[0][0] if actions else ""),
+                      line_of(late[0][1]) if late else None)
     if total < 29:
         ctx.fail("C15.F", "flow:floor", "flow table shrank")
     # k-mode default vector size is not constrained; whole-seq default is 1 (in table)
